@@ -66,6 +66,8 @@ fn to_tree(e: &Expression) -> Option<PTree> {
             ModSym::Flt => PTree::Cast(CastKind::Flt, f.clone()),
             ModSym::Str => PTree::Cast(CastKind::Str, f.clone()),
             ModSym::Not => PTree::NotCast(f.clone()),
+            #[allow(unreachable_patterns)]
+            _ => return None,
         },
         Expression::Negate(x) => PTree::Not(Box::new(to_tree(x)?)),
         Expression::Match(Match::All, x) => match &**x {
@@ -99,6 +101,8 @@ fn to_tree(e: &Expression) -> Option<PTree> {
                 BoolSym::GreaterThanOrEqual => BinOp::Cmp(NumOp::Ge),
                 BoolSym::LessThan => BinOp::Cmp(NumOp::Lt),
                 BoolSym::LessThanOrEqual => BinOp::Cmp(NumOp::Le),
+                #[allow(unreachable_patterns)]
+                _ => return None,
             };
             PTree::Bin(Box::new(to_tree(l)?), op, Box::new(to_tree(r)?))
         }
